@@ -2,11 +2,17 @@
 
 Proof : Properties/C02.v  (C02_count: every cell of the model cube - walk, fill, marginal differencing,
         margin cut, zero -> missing - holds the number of rows of that cell, including the reconstructed
-        common cells; C02_infer: inferred extents = 1 + max(listed values u {common})).
+        common cells, any number of dimensions; C02_missing_iff_no_rows; C02_formats_agree / C02_reports;
+        C02_infer / C02_infer_covers: inferred extents = 1 + max(listed values u {common});
+        C02_checker_evaluates_model: the staged evaluation used below IS the model's value).
 Tie W2: `ccube(dims, interacting_shape=...).count(return_missing_as=...)` on real iindex dimensions
         (1, 2 or 3 axes; sub-cube blocks compared with the one-axis model applied to the really
         `sliced` dimensions) against `count_cube`, compared INSIDE Coq (Cube/Check.v: c02_check), all
-        three report formats, explicit / inferred shape, IndexError <-> cube_ok.
+        three report formats, explicit / inferred shape, IndexError <-> cube_ok.  The model cube is
+        evaluated once per block (Cube/CountTable.v: a table re-tabulated after every differencing step);
+        blocks whose working box exceeds TABLE_LIMIT cells (an axis at the 255..65537 boundaries) are
+        compared with the right-hand side of C02_count instead, the checker then demanding the theorem's
+        hypotheses (dim_wf_b, covers_b) on the real dimensions.
 Oracle: brute-force table from the dense arrays (no model, no slicing).
 """
 import itertools
@@ -252,7 +258,7 @@ def run(ctx):
     ctx.assumptions = ["Print Assumptions: " + a for a in pr["assumptions"]] + [
         "C02_count covers: well-formed dimensions (dim_wf), one extent per dimension, every listed value and the common value "
         "in [0, extent) (`covers`); smaller extents raise IndexError or alias the margin slot and are outside the property",
-        "N passed to count() equals the row count (the default)"]
+        "N >= 0 is the row count; N passed to count() equals it (the default; given explicitly for zero-dimension cubes)"]
     ctx.coverage["print_assumptions"] = pr["assumptions"]
     ctx.import_catii()
 
